@@ -16,7 +16,7 @@ import zlib
 from collections import Counter
 
 from simkit import core, env
-from checks.c13_model import (Model, Violation, Discard, check_primary, rebuild, resync, stereo_of,
+from checks.c13_model import (Model, Violation, Discard, check_primary, rebuild, resync, stereo_of, rebuild_other_order, order_free,
                               observe, OBSERVERS, OBS_INDEX, GRAPH_ONLY)
 from checks.c13_rx import RxMixin, gen_rx_op, RX_NORMALISERS
 
@@ -238,6 +238,23 @@ class Sim(RxMixin):
         model.astereo, model.bstereo = ast, bst
         if model.aromatic:
             self._check_kekule_twin(mol, where)
+        if touched is None or touched or rng.random() < 0.3:
+            # a twin stored in another order: marks and counts must not depend on the order of insertion
+            try:
+                v1, v2 = order_free(mol), order_free(rebuild_other_order(model))
+            except Discard:
+                raise
+            except Exception as e:
+                from chython.exceptions import ImplementationError
+                if isinstance(e, ImplementationError):
+                    raise Discard(f'ImplementationError in the reordered twin: {e}')
+                raise Violation(f'unexpected-exception:reordered-twin:{type(e).__name__}', f'{where}: {e!r}')
+            if v1 != v2:
+                k = next(q for q in v1 if v1[q] != v2[q])
+                d = [x for x in v1[k] if x not in v2[k]][:4] if isinstance(v1[k], list) else v1[k]
+                d2 = [x for x in v2[k] if x not in v1[k]][:4] if isinstance(v2[k], list) else v2[k]
+                raise Violation(f'derived-mismatch:order-dependent:{k}', f'{where}: mol={_short(d)} twin stored in another order={_short(d2)}')
+            self.probes['reordered_twin_checked'] += 1
         if rng.random() < self.cfg.get('sparse_p', 0.0):
             mol.__dict__ = saved   # as if the caller had not read anything: cache state before the check
             self.probes['sparse_restore'] += 1
@@ -635,13 +652,56 @@ class Sim(RxMixin):
         mapping = self._remap_mapping(op, model)
         valid = len(mapping) == len(set(mapping.values())) and \
             (model.atoms.keys() - mapping.keys()).isdisjoint(mapping.values()) and all(v > 0 for v in mapping.values())
+        conf = self._configurations(mol) if valid else None
         raised = self._do('remap', valid, lambda: mol.remap(dict(mapping)))
         if not valid:
             resync(model, mol)
             return hi, None
         model.remap(mapping)
         self.probes['remap'] += 1
+        if conf:
+            # renumbering must not change what a label means: the sign read for the *renamed* neighbours, in the order
+            # they had before, is the sign that was stored (raw labels are relative to the storage order of the neighbours)
+            g = lambda x: mapping.get(x, x)   # noqa: E731
+            for kind, key, env, sign in conf:
+                try:
+                    if kind == 't':
+                        now = mol._translate_tetrahedron_sign(g(key), tuple(g(x) for x in env))
+                    elif kind == 'a':
+                        now = mol._translate_allene_sign(g(key), g(env[0]), g(env[1]))
+                    else:
+                        now = mol._translate_cis_trans_sign(g(key[0]), g(key[1]), g(env[0]), g(env[1]))
+                except Exception as e:
+                    raise Violation('derived-mismatch:configuration-after-remap', f'{kind} {key}: {e!r}')
+                if now != sign:
+                    raise Violation('derived-mismatch:configuration-after-remap',
+                                    f'{kind} centre {key} -> {g(key) if kind != "c" else (g(key[0]), g(key[1]))}: neighbours {env} read {sign} '
+                                    f'before and {now} after renumbering with {mapping}')
+            self.probes['configurations_followed_through_remap'] += len(conf)
         return hi, set()
+
+    @staticmethod
+    def _configurations(mol):
+        """(kind, centre, reference neighbours, sign) of every labelled stereo unit, through the library's translation helpers."""
+        out = []
+        try:
+            for n, a in mol._atoms.items():
+                if a._stereo is None:
+                    continue
+                if n in mol.stereogenic_tetrahedrons:
+                    env = tuple(mol.stereogenic_tetrahedrons[n])
+                    out.append(('t', n, env, mol._translate_tetrahedron_sign(n, env)))
+                elif n in mol.stereogenic_allenes:
+                    e = mol.stereogenic_allenes[n]
+                    out.append(('a', n, (e[0], e[1]), mol._translate_allene_sign(n, e[0], e[1])))
+            for (n, m), e in mol.stereogenic_cis_trans.items():
+                i, j = mol._stereo_cis_trans_centers[n]
+                if mol._bonds[i][j]._stereo is None:
+                    continue
+                out.append(('c', (n, m), (e[0], e[1]), mol._translate_cis_trans_sign(n, m, e[0], e[1])))
+        except Exception:
+            return []
+        return out
 
     def op_union(self, op):
         hi, gi = self._h(op), self._h(op, 'g')
